@@ -2,7 +2,8 @@
 # usage: tools/run_all.sh [tier] [seed]  -- runs every registered check, prints one line each
 tier=${1:-quick}; seed=${2:-0}
 cd /verif
-for id in $(python3 -c "import json;print(' '.join(c['property_id'] for c in json.load(open('MANIFEST.json'))['checks']))"); do
+# CHECKS="C01 C06" restricts the run
+for id in ${CHECKS:-$(python3 -c "import json;print(' '.join(c['property_id'] for c in json.load(open('MANIFEST.json'))['checks']))")}; do
   s=$(date +%s)
   out=$(VERIF_SEED=$seed ./check $id --tier $tier 2>&1); st=$?
   e=$(date +%s)
